@@ -283,6 +283,8 @@ enum Raw<'a> {
         #[zlink(rename = "in")]
         r#in: bool,
     },
+    /// A struct variant without fields: no `parameters` on the wire, like a unit variant.
+    Hollow {},
 }
 impl Canon for Raw<'_> {
     fn canon(&self) -> Value {
@@ -291,6 +293,7 @@ impl Canon for Raw<'_> {
             Raw::Matched { r#match, r#ref } => var(1, vec![r#match.canon(), r#ref.canon()]),
             Raw::Loop => var(2, vec![]),
             Raw::Renamed { r#in } => var(3, vec![r#in.canon()]),
+            Raw::Hollow {} => var(4, vec![]),
         }
     }
 }
